@@ -389,6 +389,54 @@ func (w *World) AnnounceLoose(t *Tape) *wire.MsgTx {
 	return tx
 }
 
+// AnnounceAgain makes the node announce a transaction it announced before and
+// that is still unconfirmed, with all parents confirmed and no rival known: the
+// node accepts a transaction into its pool (and notifies) again after it
+// dropped it - a block that held it was disconnected, it was evicted and
+// relayed again, the node was restarted. conflictFree reports whether no other
+// unconfirmed transaction of the pool spends one of its inputs.
+//
+//go:norace
+func (w *World) AnnounceAgain(t *Tape) (tx *wire.MsgTx, conflictFree bool) {
+	tip := w.Node.Tip()
+	view := w.Gen.utxoAt(tip)
+	pool := w.Gen.pendingMempool()
+	var cands []*wire.MsgTx
+	for _, m := range pool {
+		ok := true
+		for _, in := range m.TxIn {
+			if _, unspent := view[in.PreviousOutPoint]; !unspent {
+				ok = false
+				break
+			}
+		}
+		if ok {
+			cands = append(cands, m)
+		}
+	}
+	if len(cands) == 0 {
+		return nil, false
+	}
+	tx = cands[t.Int(len(cands))]
+	conflictFree = true
+	for _, m := range pool {
+		if m == tx {
+			continue
+		}
+		for _, in := range m.TxIn {
+			for _, mine := range tx.TxIn {
+				if in.PreviousOutPoint == mine.PreviousOutPoint {
+					conflictFree = false
+				}
+			}
+		}
+	}
+	w.AnnounceTx(tx)
+	w.Logf("announce again %s", describeTx(tx))
+	w.Stat("op.unconfirmed_again")
+	return tx, conflictFree
+}
+
 // AllDelivered reports whether every running instance has an empty queue.
 //
 //go:norace
